@@ -131,6 +131,7 @@ uint64_t g_fed;        /* bytes the codec consumed */
 uint64_t g_opos;       /* bytes the codec produced (+ start value) */
 int g_last;            /* status of the most recent call */
 int g_last_mode;
+sqfs_u32 g_last_p;       /* bytes produced by the most recent call */
 bool g_codec_err;
 unsigned g_codec_calls; /* saturating (cover points) */
 unsigned g_ncalls;      /* exact */
@@ -211,6 +212,7 @@ static int c15_process_data(xfrm_stream_t *stream, const void *in,
 		     "C15.codec.no_clobber");
 	if (g_ow >= g_opos && g_ow - g_opos < p)
 		g_owat = oi + (size_t)(g_ow - g_opos);
+	g_last_p = p;
 	g_fed += c;
 	g_opos += p;
 	*in_read += c;
@@ -232,6 +234,7 @@ static inline void c15_codec_init(sqfs_u8 *obase)
 	g_opos = 0;
 	g_last = XFRM_STREAM_OK;
 	g_last_mode = XFRM_STREAM_FLUSH_NONE;
+	g_last_p = 0;
 	g_codec_err = false;
 	g_codec_calls = 0;
 	g_ncalls = 0;
